@@ -110,6 +110,9 @@ def finish(prop, mod, tier, seed, obligations, errors, jobs, t0):
             print(f"KNOWN-FINDING: property={prop} {k['id']}: {k['what']}")
             printed.add(k["id"])
     lines = []
+    import glob
+    for old_file in glob.glob(os.path.join(REPLAY_DIR, prop, "*.json")):        # replays of earlier runs are stale
+        os.remove(old_file)
     if viol:
         os.makedirs(os.path.join(REPLAY_DIR, prop), exist_ok=True)
     for i, o in enumerate(viol):
